@@ -6,7 +6,7 @@ import time
 
 from hypothesis import HealthCheck, Phase, given, seed as hseed, settings, strategies as st
 
-from vf import env, progcheck, known_shapes
+from vf import env, hyp, progcheck, known_shapes
 from vf.acc import Acc
 from vf.gen import families, programs
 
@@ -93,18 +93,12 @@ def run_shard(spec):
     else:
         strat = st.lists(families.family_program(names=known_shapes.COMPOSABLE), min_size=2, max_size=3).map(compose)
 
-    @hseed(spec["seed"])
-    @settings(max_examples=spec["n"], database=None, deadline=None, phases=[Phase.generate], suppress_health_check=list(HealthCheck))
-    @given(st.data())
     def go(data):
-        if time.time() - t0 > spec["budget_s"]:
-            acc.budget_exhausted = True
-            return
         label, src = data.draw(strat)
         for _ in range(spec["nopts"]):
             one(src, data.draw(options(src)), label)
 
-    go()
+    hyp.run(st.data(), go, spec["n"], spec["seed"], spec["budget_s"], acc, chunk=40)
     acc.extra["rule_fire_counts"] = fired_total
     return acc
 
